@@ -90,6 +90,15 @@ func c01Oracle0(w *world, r *worldResult, liveness bool) string {
 			}
 		}
 	}
+	if w.p.DstPre != "" && w.p.Overwrite && (srvOK || cliOK) {
+		// -y onto existing files: every incoming path holds exactly the source's bytes afterwards (what else the
+		// destination held is C08's business)
+		for k, v := range want {
+			if r.Dst[k] != v {
+				return fmt.Sprintf("a side reported success (server=%v client=%v) for -y onto an existing destination (%s) but %s is %s, the source %s", srvOK, cliOK, w.p.DstPre, k, r.Dst[k], v)
+			}
+		}
+	}
 	if w.p.Overwrite && len(c01Renames(w)) > 0 {
 		// duplicate names with -y are refused up front (checkDuplicateNames): both sides must say so and nothing is written
 		if srvOK || cliOK {
@@ -136,7 +145,9 @@ type c01Params struct {
 	W []wParams `json:"w"`
 	// Cuts: instead of running W as given, run W[0] once to learn the transcript and then once for
 	// every single cut position of either direction (sharded).
-	Cuts    bool `json:"cuts,omitempty"`
+	Cuts bool `json:"cuts,omitempty"`
+	// Conform: the server-main replica against the real cmd/trz and cmd/tsz binaries (zz_verif_conform.go)
+	Conform bool `json:"conform,omitempty"`
 	Shard   int  `json:"shard,omitempty"`
 	NShards int  `json:"nshards,omitempty"`
 }
@@ -146,6 +157,10 @@ func c01Run(j vs.Job) *vs.JobResult {
 	j.Decode(&p)
 	r := &vs.JobResult{Outcomes: map[string]int64{}}
 	states := map[uint64]struct{}{}
+	if p.Conform {
+		conformRun(r)
+		return r
+	}
 	if p.Cuts {
 		base := p.W[0]
 		w0, res0 := runWorld(base, vs.Config{}, nil, nil, nil)
@@ -313,10 +328,11 @@ func init() {
 	vs.Register(&vs.Check{
 		ID:    "C01",
 		Level: "exploration",
-		Rule:  "configuration vector x source tree x segmentation policy, each executed end to end (real filter, relays, server role) in virtual time; distinct by construction",
+		Rule:  "configuration vector x source tree x segmentation policy, each executed end to end (real filter, relays, server role) in virtual time; distinct by construction; overwrite also onto destinations that already hold the names (resumed after a proven prefix, different, identical, longer) x base64/binary x compress auto/yes/no; every single cut of the transcript on a core of configurations; 300 files under a descriptor limit of 100",
 		Assumptions: []string{
 			"the server main is a replica of the tail of TrzMain/TszMain running the real recvFiles/sendFiles",
 		},
+		TraceNote:   "the world's server role is a replica of the tail of TrzMain/TszMain; the number counts configurations whose message-type transcript, resulting files and final message were compared with the real cmd/trz and cmd/tsz binaries (built from the current tree, run as child processes in real time)",
 		QuickBudget: 100, ThoroughBudget: 1200,
 		DiedIsViolation: true,
 		Jobs: func(tier string) []vs.Job {
@@ -330,6 +346,27 @@ func init() {
 				}
 				jobs = append(jobs, vs.MkJob(fmt.Sprintf("batch %d-%d", i, e), c01Params{W: cfgs[i:e]}))
 			}
+			// overwrite on, onto a destination that already holds the names: part of the file proven equal and
+			// resumed (three 64 KiB blocks agree, ~200 KB still to send, enough for the compression probe), different
+			// from the first block, identical, and longer
+			var ow []wParams
+			for _, dir := range []string{"up", "down"} {
+				for _, bin := range []bool{false, true} {
+					for _, comp := range []int{0, 1, 2} {
+						for _, tree := range []string{"one:R:400000", "one:T:400000"} {
+							if tier != "thorough" && (bin != (comp == 1)) && comp != 0 {
+								continue
+							}
+							ow = append(ow, wParams{Dir: dir, Binary: bin, Compress: comp, Tree: tree, Overwrite: true, DstPre: "c08:shorter:200000@-1", HashStep: 65536})
+						}
+					}
+					ow = append(ow, wParams{Dir: dir, Binary: bin, Tree: "one:T:400000", Overwrite: true, DstPre: "c08:shorter:200000@70000", HashStep: 65536},
+						wParams{Dir: dir, Binary: bin, Tree: "small3", Overwrite: true, DstPre: "c08:longer:9@5"},
+						wParams{Dir: dir, Binary: bin, Tree: "small3", Overwrite: true, DstPre: "c08:same@-1"},
+						wParams{Dir: dir, Binary: bin, Tree: "dir", Directory: true, Overwrite: true, DstPre: "c08:shorter:3@-1"})
+				}
+			}
+			jobs = append(jobs, vs.MkJob("overwrite onto existing files", c01Params{W: ow}))
 			// every single cut of the whole transcript, both directions, on a core of configurations
 			core := []wParams{
 				{Dir: "up", Tree: "small3"},
@@ -365,6 +402,7 @@ func init() {
 					jobs = append(jobs, vs.MkJob(fmt.Sprintf("cuts %s %d/8", c.String(), sh), c01Params{W: []wParams{c}, Cuts: true, Shard: sh, NShards: 8}))
 				}
 			}
+			jobs = append(jobs, vs.MkJob("conformance with the real trz/tsz binaries", c01Params{Conform: true}))
 			return jobs
 		},
 		Run: c01Run,
